@@ -1,5 +1,6 @@
 import VlsModel.Lemmas.Wire
 import VlsModel.Gen.WireSchema
+import VlsModel.Gen.WireFrame
 /-
 C19 — protocol messages survive the wire unchanged.
 
@@ -309,6 +310,49 @@ theorem C19_framed_registry (hL : L.RT) (i : Nat) (e : Entry) (v : Val α) (rest
   C19_framed L hL registry maxMessageSize i e v rest hi (by rw [C19_registry.2]; simp) h.1 h.2 hw hlen
     C19_frame_size.2
 
+/-! ### the typed decoders (`T::from_vec`, `read_message::<T>`): what the client side of the protocol uses for
+    replies (`vls-protocol-client`), and the signer for the first message of a connection -/
+
+/-- **C19_typed.** `T::from_vec(m.as_vec()) = m` for the decoder generated by `#[derive(SerBolt)]`, for any
+    message struct (no registry involved: the typed decoder compares the type prefix with `T::TYPE` itself, so a
+    shadowed id does not matter here) -/
+theorem C19_typed (hL : L.RT) (e : Entry) (v : Val α)
+    (hid : e.id < 65536) (hok : e.ty.okAt true = true) (hw : wf L e.ty v = true) :
+    fromVecTyped L e (asVec L e v) = .ok (v.norm L.norm) := by
+  have hrt := Wire_roundtrip L hL e.ty true v [] hok hw (fun _ => rfl)
+  simp at hrt
+  have hb : beVal (beBytes 2 e.id) = e.id := beVal_beBytes 2 e.id (by simpa using hid)
+  simp [fromVecTyped, asVec, splitAt?_append 2 _ _ (beBytes_length 2 _), hb, hrt]
+
+/-- **C19_read_message_typed.** `read_message::<T>(write(m) ++ next frames) = m` -/
+theorem C19_read_message_typed (hL : L.RT) (maxMsg : Nat) (e : Entry) (v : Val α) (rest : Bytes)
+    (hid : e.id < 65536) (hok : e.ty.okAt true = true) (hw : wf L e.ty v = true)
+    (hlen : (asVec L e v).length ≤ maxMsg) (hmax : maxMsg < 256 ^ 4) :
+    readMessageTyped L maxMsg e (writeVec (asVec L e v) ++ rest) = some (v.norm L.norm) := by
+  have hrt := Wire_roundtrip L hL e.ty true v [] hok hw (fun _ => rfl)
+  simp at hrt
+  have h2 : 2 ≤ (asVec L e v).length := by simp [asVec, beBytes_length]
+  have hb : beVal (beBytes 4 (asVec L e v).length) = (asVec L e v).length := beVal_beBytes 4 _ (by omega)
+  have hb2 : beVal (beBytes 2 e.id) = e.id := beVal_beBytes 2 e.id (by simpa using hid)
+  have hn : ¬ ((asVec L e v).length < 2 ∨ (asVec L e v).length > maxMsg ∨
+      (asVec L e v ++ rest).length < (asVec L e v).length) := by
+    simp only [List.length_append]; omega
+  have ht : (asVec L e v ++ rest).take (asVec L e v).length = asVec L e v := List.take_left' rfl
+  have hs : splitAt? 2 (asVec L e v) = some (beBytes 2 e.id, enc L e.ty v) := by
+    have := splitAt?_append 2 (beBytes 2 e.id) (enc L e.ty v) (beBytes_length 2 _)
+    simpa [asVec] using this
+  simp only [readMessageTyped, writeVec, List.append_assoc,
+    splitAt?_append 4 _ _ (beBytes_length 4 _), hb, hn, if_false, ht, hs, hb2, ne_eq, not_true_eq_false, hrt]
+
+/-- both typed decoders on the generated registry (every message type, default build and `developer`) -/
+theorem C19_typed_registry (hL : L.RT) (i : Nat) (e : Entry) (v : Val α) (rest : Bytes)
+    (hi : registryAll[i]? = some e) (hw : wf L e.ty v = true) (hlen : (asVec L e v).length ≤ maxMessageSize) :
+    fromVecTyped L e (asVec L e v) = .ok (v.norm L.norm) ∧
+    readMessageTyped L maxMessageSize e (writeVec (asVec L e v) ++ rest) = some (v.norm L.norm) :=
+  have h := regOk_get registryAll C19_schema_wf.1 i e hi
+  ⟨C19_typed L hL e v h.1 h.2 hw,
+   C19_read_message_typed L hL maxMessageSize e v rest h.1 h.2 hw hlen C19_frame_size.2⟩
+
 /-- serial headers come back as written -/
 theorem C19_serial_request (seq dbid : Nat) (peer rest : Bytes) (hs : seq < 65536) (hp : peer.length = 33)
     (hd : dbid < 2 ^ 64) :
@@ -325,6 +369,80 @@ theorem C19_serial_response (seq : Nat) (rest : Bytes) (hs : seq < 65536) :
   have hm : beVal (beBytes 2 0x5aa5) = 0x5aa5 := by decide
   simp [readSerialResponse, writeSerialResponse, List.append_assoc,
     splitAt?_append 2 _ _ (beBytes_length 2 _), hm, beVal_beBytes 2 seq (by simpa using hs)]
+
+/-! ### the hand-written framing code of msgs.rs, tied to its source text (`Gen/WireFrame.lean`) -/
+section GenFrame
+open VlsModel.Gen.WireFrame
+
+/-- **C19_gen_serial_request.** `writeSerialRequest` / `readSerialRequest` of the model are the interpretation of
+    the step lists `x_wireframe.py` reads off `write_serial_request_header` / `read_serial_request_header`
+    (magic value, widths, field order `sequence, peer_id, dbid`, the `BadFraming` comparison) -/
+theorem C19_gen_serial_request (seq dbid : Nat) (peer bs : Bytes) (hp : peer.length = 33) :
+    hWrite serialRequestWrite [.n seq, .b peer, .n dbid] = some (writeSerialRequest seq peer dbid) ∧
+    readSerialRequest bs = (hRead serialRequestRead 0 bs).bind (fun p =>
+      match p.1 with
+      | [.n s, .b q, .n d] => some (s, q, d)
+      | _ => none) := by
+  constructor
+  · simp [serialRequestWrite, hWrite, writeSerialRequest, hp]
+  · simp only [serialRequestRead, hRead, readSerialRequest]
+    cases h1 : splitAt? 2 bs with
+    | none => rfl
+    | some p1 =>
+      obtain ⟨m, r1⟩ := p1
+      by_cases hm : beVal m ≠ 43605
+      · simp [hm]
+      · simp only [hm, if_false]
+        cases h2 : splitAt? 2 r1 with
+        | none => rfl
+        | some p2 =>
+          obtain ⟨s, r2⟩ := p2
+          cases h3 : splitAt? 33 r2 with
+          | none => simp [h3]
+          | some p3 =>
+            obtain ⟨q, r3⟩ := p3
+            cases h4 : splitAt? 8 r3 with
+            | none => simp [h3, h4]
+            | some p4 => simp [h3, h4]
+
+/-- **C19_gen_serial_response.** the same for `write_serial_response_header` / `read_serial_response_header`
+    (magic, then the sequence number compared with the expected one) -/
+theorem C19_gen_serial_response (seq expected : Nat) (bs : Bytes) :
+    hWrite serialResponseWrite [.n seq] = some (writeSerialResponse seq) ∧
+    readSerialResponse bs expected = (hRead serialResponseRead expected bs).isSome := by
+  constructor
+  · simp [serialResponseWrite, hWrite, writeSerialResponse]
+  · simp only [serialResponseRead, hRead, readSerialResponse]
+    cases h1 : splitAt? 2 bs with
+    | none => rfl
+    | some p1 =>
+      obtain ⟨m, r1⟩ := p1
+      by_cases hm : beVal m ≠ 23205
+      · simp [hm]
+      · simp only [hm, if_false]
+        cases h2 : splitAt? 2 r1 with
+        | none => rfl
+        | some p2 =>
+          obtain ⟨s, r2⟩ := p2
+          by_cases he : beVal s = expected <;> simp [he]
+
+/-- **C19_gen_frame.** the widths the model uses for the frame length (`write_vec`, `read*`) and for the type
+    prefix (`write`, `as_vec`, `from_reader`) are the ones of the source -/
+theorem C19_gen_frame {α : Type} (L : LeafCodec α) (e : Entry) (v : Val α) (bs : Bytes) :
+    writeVec bs = beBytes frameLenWidth bs.length ++ bs ∧
+    asVec L e v = beBytes typeWidth e.id ++ enc L e.ty v := ⟨rfl, rfl⟩
+
+/-- **C19_gen_reader_order.** the statement order of the readers that the model's `fromVec` / `readFrame` /
+    `readMessageTyped` / `readRaw` rely on: `read` = u32 length + `from_reader`; `from_reader` checks the length
+    first, reads inside a window of exactly `len` bytes, takes a u16 type, refuses trailing bytes; `from_vec` passes
+    its own length; `read_message` checks length, type and trailing bytes; `read_raw` has no length check -/
+theorem C19_gen_reader_order :
+    readIsLenThenFromReader = true ∧ fromReaderChecksLengthFirst = true ∧ fromReaderWindowIsLen = true ∧
+    fromReaderTypeIsU16 = true ∧ fromReaderRefusesTrailing = true ∧ fromVecPassesItsLength = true ∧
+    readMessageChecksLengthFirst = true ∧ readMessageChecksType = true ∧ readMessageRefusesTrailing = true ∧
+    readRawHasNoLengthCheck = true := by decide
+
+end GenFrame
 
 /-! ### StreamedPSBT -/
 open Streamed
